@@ -492,13 +492,16 @@ func TestVerifC12Async(t *testing.T) {
 	add(c12aSpec{maxApplying: 1, workers: 1, proposers: 1, proposals: 2, paced: true, durable: false, restart: true, bound: b, quiet: true})
 	add(c12aSpec{maxApplying: 1, workers: 1, proposers: 1, proposals: 2, paced: false, durable: false, closeEarly: true, restart: true, bound: b, quiet: true})
 	if th {
-		add(c12aSpec{maxApplying: 1, workers: 1, proposers: 2, proposals: 3, paced: true, durable: true, restart: true, bound: 3, quiet: true})
+		// bound 3 (via ev.Pick above) for the two quick scenarios plus a burst with budget 2
 		add(c12aSpec{maxApplying: 2, workers: 1, proposers: 1, proposals: 3, paced: false, durable: false, restart: true, bound: 3, quiet: true})
-		add(c12aSpec{maxApplying: 1, workers: 1, proposers: 1, proposals: 2, paced: true, durable: false, restart: true, ticker: true, bound: 1, quiet: true})
-		add(c12aSpec{maxApplying: 2, workers: 1, proposers: 2, proposals: 4, paced: true, durable: false, restart: true, bound: 3, quiet: true})
-		add(c12aSpec{maxApplying: 2, workers: 2, proposers: 1, proposals: 4, paced: true, durable: true, restart: true, bound: 3, quiet: true})
-		add(c12aSpec{maxApplying: 1, workers: 2, proposers: 2, proposals: 4, paced: false, durable: false, restart: true, bound: 3, quiet: true})
-		add(c12aSpec{maxApplying: 1, workers: 1, proposers: 1, proposals: 3, paced: true, durable: true, closeEarly: true, restart: true, bound: 3, quiet: true})
+		// wider scenarios at bound 2
+		add(c12aSpec{maxApplying: 1, workers: 1, proposers: 2, proposals: 3, paced: true, durable: true, restart: true, bound: 2, quiet: true})
+		add(c12aSpec{maxApplying: 1, workers: 1, proposers: 1, proposals: 2, paced: true, durable: false, restart: true, ticker: true, bound: 2, quiet: true})
+		add(c12aSpec{maxApplying: 2, workers: 1, proposers: 2, proposals: 4, paced: true, durable: false, restart: true, bound: 2, quiet: true})
+		add(c12aSpec{maxApplying: 2, workers: 2, proposers: 1, proposals: 4, paced: true, durable: true, restart: true, bound: 2, quiet: true})
+		add(c12aSpec{maxApplying: 1, workers: 2, proposers: 2, proposals: 4, paced: false, durable: false, restart: true, bound: 2, quiet: true})
+		add(c12aSpec{maxApplying: 1, workers: 1, proposers: 1, proposals: 3, paced: true, durable: true, closeEarly: true, restart: true, bound: 2, quiet: true})
+		// every atomic operation is a scheduling point
 		add(c12aSpec{maxApplying: 1, workers: 1, proposers: 1, proposals: 3, paced: true, durable: false, restart: true, bound: 2, quiet: false})
 		add(c12aSpec{maxApplying: 2, workers: 1, proposers: 2, proposals: 3, paced: true, durable: true, restart: false, bound: 2, quiet: false})
 	}
